@@ -73,6 +73,7 @@ def spawn(argsfile, tmpdir):
 
 
 _solo_cache = {}
+_PATTERNS = set()
 
 
 def solitary(ctx, root, text, from_string):
@@ -277,6 +278,10 @@ def imports(ctx, case):
                     ctx.mon("barrier timeouts")
         case["_overlap"] = overlap
         case["_pattern"] = sorted(pattern)
+        pk = (N, tuple(sorted(pattern)))
+        if pk not in _PATTERNS:
+            _PATTERNS.add(pk)
+            ctx.mon("distinct overlap patterns (N, live intermediates seen by each importer)")
         ctx.monitors["max simultaneously live intermediates"] = max(ctx.monitors.get("max simultaneously live intermediates", 0), overlap)
         if overlap >= 2:
             ctx.mon("runs with overlap >= 2")
